@@ -57,6 +57,12 @@ CHECKS['C13'] = dict(engine='enum_cmap + hypothesis/grdrv', technique='exhaustiv
          'exhaustive per font (two fonts with ~1900 format-12 groups are strided above the BMP in the quick tier), exploration over fonts.',
     note='Trusted: the reference lookup (harness/cmap_sweep.h). Generated subtables are well-formed; malformed cmaps are C01 territory.', ref='5/C13')
 
+CHECKS['C14'] = dict(engine='hypothesis/grdrv + fz_lz4 (libFuzzer)', technique='round-trip property-based testing with a generator of valid LZ4 encoders, differential testing against a reference decoder, coverage-guided fuzzing, compressed-vs-plain font differential',
+    text='Random valid encodings (overlapping matches, length-extension boundaries, end-of-block rules) of real tables must decode exactly; arbitrary and mutated blocks must be '
+         'rejected or agree with a permissive reference decoder within the announced size (ASan on exact-size blocks); fonts with compressed Silf/Glat must load and shape exactly as '
+         'their plain twins, and bad compression headers must be rejected without leaks. Exploration level.',
+    note='Trusted: py/lz4ref.py and harness/lz4ref.h (reference, from the LZ4 block format description).', ref='5/C14')
+
 NOT_YET = {}
 
 def main():
